@@ -320,10 +320,38 @@ def switch_bodies(tier):
                 yield ("try", ("throw", V("x")), "q", sw)
 
 
+# declarations that cross construct boundaries: a name declared in a `try` body is visible in the handler and after the `try`
+# (the body has no scope of its own); a catch variable / for variable / lambda parameter is not visible afterwards
+def crossing_bodies(tier):
+    decls = [("decl", "q", I(5)), ("decl", "y", I(6)), ("decl", "q", V("x")), ("set", "x", I(8)), ("seq", [("decl", "q", I(5)), ("set", "q", V("y"))])]
+    ends = [("throw", I(1)), ("throw", V("q")), I(0), V("w")]
+    uses = [V("q"), V("y"), ("bin", "+", V("q"), V("e")), ("set", "q", I(9)), ("seq", [("set", "q", I(9)), V("q")]), ("list", [V("q"), V("y"), V("z")]),
+            ("lambda", [], V("q")), V("e"), ("decl", "q", I(3))]
+    for d in decls:
+        for en in ends:
+            for u in uses:
+                for cv in ("e", "q", "_"):
+                    t = ("try", ("seq", [d, en]), cv, u)
+                    yield t
+                    yield ("seq", [t, V("q")])
+                    if tier != "quick":
+                        yield ("seq", [t, V("e")])
+                        yield ("lambda", [], t)
+                        yield ("for", [("each", "i", V("z"))], ("yield", t, None))
+    # the same across if / and / while / for bodies and nested lambdas
+    for d in decls[:3]:
+        for u in uses[:6]:
+            yield ("seq", [("if", V("x"), d, None), u])
+            yield ("seq", [("and", I(1), d), u])
+            yield ("seq", [("for", [("each", "i", V("z"))], ("do", d)), u])
+            yield ("seq", [("call", ("lambda", [], d), []), u])
+            yield ("seq", [("for", [("let", "q", I(4)), ("each", "i", V("z"))], ("do", u)), u])
+
+
 def bounds(tier):
     n = 3 if tier == "quick" else 4
     return {"body_max_nodes": n, "bodies": sum(len(bodies(k)) for k in range(1, n + 1)), "arguments": len(ARGS),
-            "feature_families": [f for f, _ in c05.FAMILIES if f != "eval"] + ["switch"], "switch_bodies": sum(1 for _ in switch_bodies(tier)), "outer_names": sorted(OUTER_NAMES), "unbound_name": "w"}
+            "feature_families": [f for f, _ in c05.FAMILIES if f != "eval"] + ["switch", "crossing"], "crossing_bodies": sum(1 for _ in crossing_bodies(tier)), "switch_bodies": sum(1 for _ in switch_bodies(tier)), "outer_names": sorted(OUTER_NAMES), "unbound_name": "w"}
 
 
 def cases(tier, shard, nshards):
@@ -362,6 +390,11 @@ def cases(tier, shard, nshards):
         if cnt % nshards != shard:
             continue
         yield mk(body, "switch", 9)
+    for body in crossing_bodies(tier):
+        cnt += 1
+        if cnt % nshards != shard:
+            continue
+        yield mk(body, "crossing", 9)
 
 
 def nontrivial(case, rs):
